@@ -245,10 +245,10 @@ func TestC14VRF(t *testing.T) {
 
 type codecCase struct {
 	name   string
-	enc    func() ([]byte, error)            // raw CBOR of the generated value
+	enc    func() ([]byte, error)                 // raw CBOR of the generated value
 	decEnc func(b []byte) ([]byte, string, error) // decode b into a fresh value, return re-encoding and a field-wise description
-	desc   string                             // field-wise description of the generated value
-	zstd   func(b []byte) error               // round trip through encoding.ZSTD / encoding.CBOR starting from the value
+	desc   string                                 // field-wise description of the generated value
+	zstd   func(b []byte) error                   // round trip through encoding.ZSTD / encoding.CBOR starting from the value
 }
 
 func descChain(c *gpbft.ECChain) string {
@@ -397,7 +397,9 @@ func genCodecCase(t *rapid.T) codecCase {
 			return mk(kind, j, descJust)
 		}
 		pm := &gpbft.PartialGMessage{GMessage: m, VoteValueKey: m.Vote.Value.Key()}
-		return mk(kind, pm, func(p *gpbft.PartialGMessage) string { return fmt.Sprintf("%s key=%x", descMsg(p.GMessage), p.VoteValueKey) })
+		return mk(kind, pm, func(p *gpbft.PartialGMessage) string {
+			return fmt.Sprintf("%s key=%x", descMsg(p.GMessage), p.VoteValueKey)
+		})
 	case "PowerEntry":
 		e := vgen.Entries(t, "e", 1, 3).Entries[0]
 		return mk(kind, &e, func(x *gpbft.PowerEntry) string { return descEntries(gpbft.PowerEntries{*x}) })
@@ -435,10 +437,14 @@ func genCodecCase(t *rapid.T) codecCase {
 		if rapid.Bool().Draw(t, "withtable") {
 			h.PowerTable = vgen.Entries(t, "e", 1, 20).Entries
 		}
-		return mk(kind, h, func(x *certexchange.ResponseHeader) string { return fmt.Sprintf("%d %s", x.PendingInstance, descEntries(x.PowerTable)) })
+		return mk(kind, h, func(x *certexchange.ResponseHeader) string {
+			return fmt.Sprintf("%d %s", x.PendingInstance, descEntries(x.PowerTable))
+		})
 	case "ChainMessage":
 		m := &chainexchange.Message{Instance: rapid.Uint64().Draw(t, "inst"), Chain: genChain(t, "c", 128), Timestamp: rapid.Int64().Draw(t, "ts")}
-		return mk(kind, m, func(x *chainexchange.Message) string { return fmt.Sprintf("%d %s %d", x.Instance, descChain(x.Chain), x.Timestamp) })
+		return mk(kind, m, func(x *chainexchange.Message) string {
+			return fmt.Sprintf("%d %s %d", x.Instance, descChain(x.Chain), x.Timestamp)
+		})
 	default:
 		h := &certstore.SnapshotHeader{Version: rapid.Uint64Range(0, 3).Draw(t, "v"), FirstInstance: rapid.Uint64().Draw(t, "f"), LatestInstance: rapid.Uint64().Draw(t, "l"), InitialPowerTable: vgen.Entries(t, "e", 1, 20).Entries}
 		return mk("SnapshotHeader", h, func(x *certstore.SnapshotHeader) string {
@@ -548,7 +554,9 @@ func TestC14Codecs(t *testing.T) {
 			}
 			vev.Case(c14, vev.Digest("mut", c.name, mut), true, "mutation:"+op, "mutation-verdict:"+verdict)
 		}
-		vev.Sample(c14, func() any { return map[string]any{"kind": "codec", "type": c.name, "encoded_bytes": len(raw), "mutations": nm} })
+		vev.Sample(c14, func() any {
+			return map[string]any{"kind": "codec", "type": c.name, "encoded_bytes": len(raw), "mutations": nm}
+		})
 	})
 }
 
